@@ -25,6 +25,10 @@ def main():
         from . import checks_config
 
         return checks_config.run(a.prop, a.tier, a.replay)
+    if a.prop in ("C15", "C18", "C19"):
+        from . import checks_functions
+
+        return checks_functions.run(a.prop, a.tier, a.replay)
     if a.prop == "C10":
         from . import checks_jobdir
 
